@@ -23,6 +23,7 @@ RULE = (
     "induced potential, dt, psi up to the gauge phase and one global phase; non-trivial = at least 3 updates compared with a "
     "non-zero chi on a driven or field-carrying run; distinct = scenario digests"
 )
+LIFECYCLES = {}  # shared object life cycles (scen.add_lifecycles) with their default rates
 BUDGET = {"quick": {"runs": 300, "chunk": 6}, "thorough": {"runs": 40000, "chunk": 10}}
 COMPONENTS = {"real": ["MeshOperators link variables (build + refresh)", "TDGLSolver.update incl. temporal link variable and retries", "screening kernel"], "stub": ["wall clock"]}
 ASSUMPTIONS = ["Run-level part only (operator-level covariance for arbitrary site functions chi is an input-space statement). Non-zero terminal_psi is excluded: a pinned value is not gauge covariant."]
